@@ -178,6 +178,14 @@ func runC05(r *ev.Run, thorough bool) int {
 			execs += nhSchedRun(r, "C05", nhConcArg{Algo: a, Mode: "failures", Peers: 3}, 2, sbudget)
 		}
 	}
+	// concurrent submissions with schedule points inside the store's transactions: two transactions of different
+	// bundles overlap, badger's conflict detection decides; the final record of every bundle must be the one a
+	// sequential execution leaves (pending flag, retention constraints). Iterative bounding: 1 preemption, then more.
+	execs += nhSchedRun(r, "C05", nhConcArg{Algo: "epidemic", Mode: "submit", N: 2, Txn: true}, 1, sbudget)
+	if thorough {
+		execs += nhSchedRun(r, "C05", nhConcArg{Algo: "epidemic", Mode: "submit", N: 2, Txn: true}, 2, sbudget)
+		execs += nhSchedRun(r, "C05", nhConcArg{Algo: "epidemic", Mode: "failures", Peers: 2, Txn: true}, 2, sbudget)
+	}
 	st.Transitions += execs
 	st.Validated += execs
 	wired := c05Wiring(r, thorough)
